@@ -886,7 +886,24 @@ func (g *G) appendStmt() {
 	}
 	s := core.Pick(g.r, vs)
 	name := g.ref(s)
-	switch n := g.r.Intn(10); {
+	switch n := g.r.Intn(11); {
+	case n == 10 && s.T.Printable():
+		// a sub-slice of a literal (cap == len in both implementations) keeps the spare capacity: an
+		// append through it that fits writes the parent's array, and it can be re-sliced up to the capacity
+		var es []string
+		for i := g.r.Range(4, 6); i > 0; i-- {
+			es = append(es, g.elemLiteral(s.T.Elem))
+		}
+		base, head := g.name("base"), g.name("head")
+		k := g.r.Range(0, 2)
+		g.use("fmt")
+		g.line("%s := %s{%s}", base, s.T.str(g.pkg), strings.Join(es, ", "))
+		g.line("%s := %s[%s:%d]", head, base, core.Pick(g.r, []string{"", "0", "1"}), k+1)
+		g.line("%s = append(%s, %s)", head, head, g.elemLiteral(s.T.Elem))
+		g.line("fmt.Println(%q, %s, %s, len(%s))", g.name("s"), base, head, head)
+		g.line("%s = %s[:%d]", head, head, len(es)-1)
+		g.line("fmt.Println(%q, %s)", g.name("s"), head)
+		return
 	case n < 5:
 		var es []string
 		for i := g.r.Range(1, 3); i > 0; i-- {
